@@ -83,6 +83,21 @@ UNITS = {
             r'^py::': ['C13', 'C11'],
         },
     },
+    'cov_vec': {
+        'template': 'cov_vec.vrs', 'backend': 'verus',
+        'serves': ['C08', 'C14'],
+    },
+    'batch_loops': {
+        'template': 'batch_loops.vrs', 'backend': 'verus',
+        'serves': ['C16'],
+        'fn_props': {
+            r'^OligoComputer::verif_lift_oligo_batch$': ['C05', 'C16'],
+            r'^cgr::': ['C11', 'C16'],
+            r'^ocgr::': ['C12', 'C16'],
+            r'^cov::': ['C08', 'C16'],
+            r'^verif_lift_sniff_': ['C16'],
+        },
+    },
     'n2k': {
         'template': 'n2k.vrs', 'backend': 'verus',
         'serves': ['C02', 'C03'],
@@ -175,6 +190,16 @@ PROPS = {
                       'abstract (R9) with axiom A3 (Kani) and S == of_nat(n); containment in the sub-square of side S/2^j for j > 1 and exact dyadic values need real-number float semantics: not decided. '
                       'The file path (.unwrap() on a rejected record panics inside rayon) is process behaviour.',
         'not_reached': ['sub-square containment beyond one halving (j > 1) and exact dyadic values', 'file-level batching/ordering of cgr.rs::vectorise (see C05-style loop contracts if listed)', 'pyo3 mapping of Err to ValueError'],
+    },
+    'C08': {
+        'units': ['cov_vec', 'batch_loops', 'float_kani'], 'deps': ['kmer_gen'], 'replay': 'c08',
+        'level_text': 'Verus proves for the verbatim CovComputer::vectorise_one, every byte string, every k <= 31, every bin size and bin count >= 1 and every counts table: the row has '
+                      'bin-count entries and entry b is of_nat(number of valid windows whose canonical k-mer has multiplicity c in the table with min(c / bin-size, bin-count - 1) == b), absent k-mers '
+                      'counting 0, raw or divided by fmax(1, total); the unchecked index is in bounds. For the lifted batch loop of compute_coverages: every record is rendered exactly once, in reader order, including the final flush.',
+        'level_note': 'trusted: Verus/Z3, vstd HashMap model; extractor rules R1 R5 R7 R8 R9, M3 lifting with the rendering/writing statements replaced by a stub (rayon par_iter order, format!, BufWriter assumed); '
+                      'float axiom A1 (Kani) and A4 `(c as f64 / b as f64).floor() as usize == c / b` (assumed, stated as the contract of stub verif_floor_div; CBMC did not finish on it); cmp::min, get_unchecked_mut assumed std contracts; '
+                      'the counts table itself (count + merge) is C07; reading kmers.counts back (text parsing) is std.',
+        'not_reached': ['build_table (counting and merging: C07)', 'parsing of kmers.counts', 'thread-count independence rests on rayon collect order (assumed)'],
     },
 }
 
